@@ -49,6 +49,9 @@ CHECKS = {
  "C24": dict(engine="B", category="translation_validation", technique="generated Python read back with Python's ast (its precedence) -> z3, proved equal to lhs-rhs of the flat equation for all values; classification lists and name injectivity checked structurally",
    text="For every expression tree over + - * / ^, unary minus, der, sin/cos/tan, time (depth 2, thorough 3) the module generated by the real SymPy backend must compile and each self.eqs entry is proved by z3 equal to the flat equation's residual; x/v/p/c/u/y lists match the flat classification; distinct names must map to distinct symbols.",
    note="Python's ast gives the precedence SymPy sees; replay executes the generated module with the real SymPy.", ref="4/C24"),
+ "C26": dict(engine="A", category="model_checking", technique="CrossHair symbolic execution (z3) of the real tools.compiler.main (real argparse) against a symbolic file system / parser / backend outcome vector; 'Confirmed over all paths' per shard; counterexamples replayed through the harness and then with real files and the unstubbed tool",
+   text="For <= 4 path arguments (file in a sub-directory, second file, directory holding a file with the same stem, non-Modelica file), 1-2 models, target none/sympy/casadi, -O absent/well-formed/malformed and EVERY combination of existence, parse outcome, model outcome, output-directory validity and write failure: main() returns the number of usage errors, else of files with parse errors (+1 if no Modelica file), else of failing models - so each model's outcome is independent of the other requested model; 5 usage-error shapes give SystemExit(2); no exception escapes.",
+   note="File system, parser and backends are stubs returning or raising per symbolic flags; logging and perf_counter are cut; real flatten on several models of one tree is C05's subject.", ref="4/C26"),
 }
 NA = {
  "C02": "deciding facts are SQLite's file-locking state machine and OS scheduling, none of which is pymoca code; CrossHair executes a single thread and nothing installed explores Python/SQLite interleavings symbolically (DESIGN.md section 5)",
